@@ -11,7 +11,9 @@
 (* Values: "A" one-line atom (echoes the options), "M" an atom writing two *)
 (* lines in two chunks, "X" an atom writing "x:" and then "p\nq" in ONE    *)
 (* chunk, "U" a nested unit value, "T" a nested tuple of one "A", "S" a    *)
-(* nested struct with one field "A", "E" an atom that writes "e" and then   *)
+(* nested struct with one field "A", "Z" an atom writing nothing, "L" an    *)
+(* atom whose output ends with a newline (the separator after it starts a  *)
+(* fresh, indented line), "E" an atom that writes "e" and then             *)
 (* FAILS (returns Err): the symbol "!" in an output marks the point where  *)
 (* the error is raised - nothing after it is ever written (View).          *)
 (***************************************************************************)
@@ -54,6 +56,8 @@ CoreShow(v, o) ==
       [] v = "X" -> <<<<"x", ":">>, <<"p", NL, "q">>>>
       [] v = "U" -> <<<<"U">>>>
       [] v = "E" -> <<<<"e">>, <<"!">>>>
+      [] v = "Z" -> <<>>                         \* writes nothing at all
+      [] v = "L" -> <<<<"l", NL>>>>              \* its output ENDS with a newline
       [] v = "T" -> <<CoreTuple(<<"T">>, <<"A">>, FALSE, o)>>
       [] v = "S" -> <<CoreStruct(<<"S">>, <<"A">>, FALSE, o)>>
 
@@ -107,6 +111,8 @@ DmShow(v, o) ==
       [] v = "X" -> <<<<"x", ":">>, <<"p", NL, "q">>>>
       [] v = "U" -> <<<<"U">>>>
       [] v = "E" -> <<<<"e">>, <<"!">>>>
+      [] v = "Z" -> <<>>
+      [] v = "L" -> <<<<"l", NL>>>>
       [] v = "T" -> <<DmTuple(<<"T">>, <<"A">>, FALSE, o)>>
       [] v = "S" -> <<CoreStruct(<<"S">>, <<"A">>, FALSE, o)>>      \* named structs use core's builder
 
